@@ -1,6 +1,8 @@
 """C03 -- encoders and decoders are mutually inverse at every layer.
 spec/Wire.tla parts A (build machine) and B (DHCPv4 option layout), spec/WireMC.tla, harness/cmd/wiredrv -build.
 See DESIGN.md section 6 / C03 and checks/wire_common.py."""
+import random
+
 import wire_common as wc
 
 import vlib
@@ -38,6 +40,8 @@ def run(ctx):
     drift_all = []
     notes_all = {}
     states = trans = 0
+    all_vecs = []
+    seq_keys = set()
     parts = [("build", build_c), ("dhcp", dhcp_c)]
     if not quick:
         parts.append(("dhcpbig", big_c))
@@ -47,10 +51,12 @@ def run(ctx):
         cov["tlc"][name]["exported"] = len(vecs)
         states += r.distinct
         trans += r.generated
+        all_vecs += vecs
         results, summary = wc.drive(ctx, binary, "build", vecs, k, name, timeout=1800)
         if summary.get("instances") != len(vecs) * k:
             raise vlib.InfraError("driver executed %s of %d instances" % (summary.get("instances"), len(vecs) * k))
         total_eval += summary["instances"]
+        seq_keys |= {f["key"] for r_ in results for f in r_.get("findings", []) if f["level"] == "prop"}
         drift, notes = wc.judge(ctx, binary, "build", vecs, results, k, name)
         drift_all += drift
         for kk, n in notes.items():
@@ -67,6 +73,18 @@ def run(ctx):
         samples += wc.sample_vectors(vecs, 2)
         cov.setdefault("runs", []).append({"part": name, "vectors": len(vecs), "instances": summary["instances"],
                                             "driver_findings": summary.get("findings", {})})
+    # concurrent stage: the same cases on several goroutines at once (no shared state between encoder calls)
+    rng = random.Random(ctx.seed)
+    pool = [v for v in all_vecs if v["part"] != "build" or v["final"] in ("done", "rewritten")]
+    rng.shuffle(pool)
+    pool = pool[:6000]
+    for i, v in enumerate(pool):
+        v = dict(v)
+        v["id"] = i + 1
+        pool[i] = v
+    cs = wc.concurrent_stage(ctx, binary, pool, 6, 3 if quick else 40, "conc", sequential_keys=seq_keys)
+    cov["concurrent_stage"] = cs
+    total_eval += cs.get("executions", 0)
     cov.update({
         "evaluations": total_eval,
         "distinct_nontrivial": len(distinct),
@@ -82,6 +100,7 @@ def run(ctx):
     ctx.assumptions += [
         "field values (MAC/IP/port/ttl/id/seq/xid/option bytes) are sampled from VERIF_SEED; lengths, capacities, option sets and orders are enumerated by TLC",
         "the reference decoder harness/vh/wire_refdecode.go is trusted (it shares no code with the library)",
+        "concurrent stage: 6 goroutines, private buffers / generators / sessions, 3 s (quick) or 40 s (thorough); a finding there must show up in two consecutive runs of the stage",
         "ICMP checksums are filled in by the harness before reference decoding (the encoders leave them to the send path: C07)",
         "documented preconditions are respected: EncodeIP4/EncodeIP6 get at least a header of capacity, option maps fit the buffer; SetPayload/AppendPayload are exercised on header-only slices and, in the rewrite sequences, on views that already carry a payload",
         "aliased arguments: the reply-in-place patterns marked `required` in AliasCases are property level; patterns the encoders' write order cannot support are only noted",
